@@ -8,10 +8,15 @@
 #include "refgrid.hh"
 #include <functional>
 #include <memory>
+#include <sys/types.h>
+#include <sys/wait.h>
+#include <fcntl.h>
+#include <cerrno>
 
 namespace wc {
 using namespace pplx;
 using hx::violation; using hx::tr; using hx::checked;
+using pplx::show; using pplx::str;
 
 // ---------- per-domain case runners (one TU each) ----------
 void run_poly_case(bool nnc);
@@ -138,6 +143,23 @@ inline long box_threshold_measure(const BoxView& b, const std::vector<Q>& T) {
     if (b.lo[i].finite) { long k = 1; for (size_t t = 0; t < T.size(); ++t) if (T[t] < b.lo[i].v) ++k; m += 2 * k + (b.lo[i].open ? 1 : 0); }
   }
   return m;
+}
+
+// ---------- crash isolation ----------
+// Runs f in a forked child; false iff the child died (sanitizer report, signal, abort).
+// Used only for configurations already known to kill the process, so that the defect is
+// reported under a precise key and the worker survives.
+inline bool survives(const std::function<void()>& f) {
+  fflush(0);
+  pid_t p = fork();
+  if (p < 0) return true;
+  if (p == 0) {
+    int fd = open("/dev/null", O_WRONLY); if (fd >= 0) dup2(fd, 2);
+    try { f(); } catch (...) { }
+    _exit(0);
+  }
+  int st = 0; while (waitpid(p, &st, 0) < 0 && errno == EINTR) { }
+  return WIFEXITED(st) && WEXITSTATUS(st) == 0;
 }
 
 // ---------- random material ----------
